@@ -278,6 +278,17 @@ def r5_durable_indication(report, repo):
         'before the PhaseExecutor existed) does not prevent the phase body' %
         (' -> '.join(chain), norm(c.args[0]) if c.args else ''))
   report.expect_instances(rule, n_paths, 2, 'methods reachable from _thread_proc')
+  roots = [c for c in core.calls_in(start.node, name='self._execute_node')]
+  ok = len(roots) == 1 and len(roots[0].args) == 3 and isinstance(
+      roots[0].args[2], ast.Constant) and roots[0].args[2].value is False and \
+      isinstance(roots[0].args[1], ast.Constant) and \
+      roots[0].args[1].value is None
+  report.check(ok, rule, start.qualname, 'root-not-teardown',
+               roots[0] if roots else start.node,
+               'the declared tree is executed as an abortable sequence '
+               '(in_teardown=False, no subtest)',
+               'the root sequence is executed with in_teardown=True: no abort '
+               'check and no failed-subtest skipping applies to any node')
 
   # repeat loop in PhaseExecutor.execute_phase
   f = repo.func(PE, 'PhaseExecutor.execute_phase')
